@@ -157,6 +157,46 @@ func gatePolarity(ifi *ssa.If, wi *wrapperInfo) (bool, int) {
 	return true, 0
 }
 
+// writerMayBeStarted: the call hands the client's writer w to code that may commit the response. A static repo
+// callee that uses the parameter only for Header() (reading or editing the header map does not commit anything)
+// or hands it on to callees of which the same holds cannot; anything else (Write, WriteHeader, Flush, Hijack, an
+// escape into memory or a closure, a dynamic or external callee) may.
+func writerMayBeStarted(c *Ctx, cc *ssa.CallCommon, w ssa.Value, depth int) bool {
+	sc := cc.StaticCallee()
+	if sc == nil || sc.Blocks == nil || !c.inRepo(sc) || depth == 0 {
+		return true
+	}
+	args := cc.Args
+	for i, a := range args {
+		if a != w || i >= len(sc.Params) {
+			continue
+		}
+		refs := sc.Params[i].Referrers()
+		if refs == nil {
+			continue
+		}
+		for _, ref := range *refs {
+			if _, ok := ref.(*ssa.DebugRef); ok {
+				continue
+			}
+			c2 := getCall(ref)
+			if c2 == nil {
+				return true // stored, captured, converted: not followed
+			}
+			if c2.IsInvoke() && c2.Value == ssa.Value(sc.Params[i]) {
+				if c2.Method.Name() == "Header" {
+					continue
+				}
+				return true
+			}
+			if writerMayBeStarted(c, c2, sc.Params[i], depth-1) {
+				return true
+			}
+		}
+	}
+	return false
+}
+
 func checkC02(c *Ctx, r *Report) {
 	r.Explanation = "Decides the structural core of 'one response = one attempt': (R1) in the retry loop (the function that invokes a core.ProxyFunc value repeatedly) no control-flow cycle leads from one attempt to the next unless it goes through the not-started branch of a test of a response-started flag that the writer wrapper handed to the attempt sets in both WriteHeader and Write (flag monotone); (R2) the status each engine relays is the StatusCode of an *http.Response; (R3) after a failed proxy call, handlers write their own error body only under the repo's nothing-written-yet test."
 	r.NotDecided = "that relayed bytes are in order and unmodified, response hop-by-hop header handling, truncation detection, what net/http does on a second WriteHeader."
@@ -213,7 +253,7 @@ func checkC02(c *Ctx, r *Report) {
 					}
 					if cc := getCall(in); cc != nil && st == 2 {
 						// a call that receives the writer may start the response
-						if _, a := respWriterArg(cc); a != nil {
+						if _, a := respWriterArg(cc); a != nil && writerMayBeStarted(c, cc, a, 3) {
 							st = 0
 						}
 					}
